@@ -13,6 +13,7 @@ import (
 	"github.com/tidwall/buntdb"
 	"github.com/tidwall/gjson"
 	"github.com/tidwall/resp"
+	"github.com/tidwall/tile38/internal/collection"
 	"github.com/tidwall/tile38/internal/endpoint"
 	"github.com/tidwall/tile38/internal/glob"
 	"github.com/tidwall/tile38/internal/log"
@@ -196,7 +197,7 @@ func (s *Server) cmdSetHook(msg *Message) (
 
 	// remove previous hook from spatial index
 	if prevHook != nil && prevHook.Fence != nil && prevHook.Fence.obj != nil {
-		rect := prevHook.Fence.obj.Rect()
+		rect := collection.SearchRect(prevHook.Fence.obj)
 		s.hookTree.Delete(
 			[2]float64{rect.Min.X, rect.Min.Y},
 			[2]float64{rect.Max.X, rect.Max.Y},
@@ -210,7 +211,7 @@ func (s *Server) cmdSetHook(msg *Message) (
 	}
 	// add hook to spatial index
 	if hook != nil && hook.Fence != nil && hook.Fence.obj != nil {
-		rect := hook.Fence.obj.Rect()
+		rect := collection.SearchRect(hook.Fence.obj)
 		s.hookTree.Insert(
 			[2]float64{rect.Min.X, rect.Min.Y},
 			[2]float64{rect.Max.X, rect.Max.Y},
@@ -264,7 +265,7 @@ func (s *Server) cmdDELHOOKop(name string, channel bool) (updated bool) {
 	s.groupDisconnectHook(hook.Name)
 	// remove hook from spatial index
 	if hook.Fence != nil && hook.Fence.obj != nil {
-		rect := hook.Fence.obj.Rect()
+		rect := collection.SearchRect(hook.Fence.obj)
 		s.hookTree.Delete(
 			[2]float64{rect.Min.X, rect.Min.Y},
 			[2]float64{rect.Max.X, rect.Max.Y},
